@@ -31,6 +31,59 @@ pub struct C04 {
     pub ref_hash_seed: u64,
     pub nocache_hash_seed: u64,
     pub variants: Vec<Variant>,
+    /// what every evaluating thread did before (another network analysed first); not applied to
+    /// the sharing-disabled reference
+    pub prelude: Option<evalx::Prelude>,
+}
+
+pub fn prelude_to_json(p: &Option<evalx::Prelude>) -> Value {
+    match p {
+        Some(p) => json!({"model": p.model, "k": p.k, "formulae": p.formulae}),
+        None => Value::Null,
+    }
+}
+
+pub fn prelude_from_json(v: &Value) -> Option<evalx::Prelude> {
+    if v.is_object() {
+        Some(evalx::Prelude {
+            model: v["model"].as_str().unwrap_or("").to_string(),
+            k: v["k"].as_u64().unwrap_or(1) as u16,
+            formulae: v["formulae"].as_array().map(|a| a.iter().map(|s| s.as_str().unwrap_or("").to_string()).collect()).unwrap_or_default(),
+        })
+    } else {
+        None
+    }
+}
+
+/// A sibling of the world's network: same variables, regulation constraints dropped, one update
+/// function negated; analysed by the evaluating thread just before the evaluation under test.
+pub fn sibling_prelude(r: &mut Rng, world: &World) -> evalx::Prelude {
+    let mut negated = false;
+    let lines: Vec<String> = world
+        .model
+        .lines()
+        .map(|l| {
+            if l.starts_with('$') {
+                if !negated && r.chance(1, 2) {
+                    if let Some((head, body)) = l.split_once(':') {
+                        negated = true;
+                        return format!("{head}: !({})", body.trim());
+                    }
+                }
+                l.to_string()
+            } else {
+                let mut s = l.to_string();
+                for arrow in [" ->? ", " -|? ", " -?? ", " -> ", " -| ", " -? "] {
+                    if s.contains(arrow) {
+                        s = s.replace(arrow, " -?? ");
+                        break;
+                    }
+                }
+                s
+            }
+        })
+        .collect();
+    evalx::Prelude { model: lines.join("\n") + "\n", k: world.k, formulae: vec!["!{x}: AG EF {x}".to_string(), "!{x}: AX {x}".to_string(), "3{x}: @{x}: EX true".to_string()] }
 }
 
 impl C04 {
@@ -40,6 +93,7 @@ impl C04 {
             "batch_text": self.batch.iter().map(|f| f.render()).collect::<Vec<_>>(),
             "ref_hash_seed": self.ref_hash_seed,
             "nocache_hash_seed": self.nocache_hash_seed,
+            "prelude": prelude_to_json(&self.prelude),
             "variants": self.variants.iter().map(|v| json!({
                 "order": v.order, "mode": v.mode.name(), "observer": v.obs.to_json(), "hash_seed": v.hash_seed
             })).collect::<Vec<_>>(),
@@ -64,6 +118,7 @@ impl C04 {
             ref_hash_seed: v["ref_hash_seed"].as_u64().unwrap_or(0),
             nocache_hash_seed: v["nocache_hash_seed"].as_u64().unwrap_or(1),
             variants,
+            prelude: prelude_from_json(&v["prelude"]),
         })
     }
 }
@@ -181,7 +236,8 @@ pub fn generate(rng: &Rng, world: &World) -> C04 {
     variants.push(Variant { order: rep, mode: random_mode(&mut r, plain), obs: random_obs(&mut r, world), hash_seed: hs.next_u64() });
     // 4: the same order as 1 under another hash seed, no observer ("repeated runs")
     variants.push(Variant { order: (0..n).collect(), mode: variants[0].mode, obs: ObsKind::None, hash_seed: hs.next_u64() });
-    C04 { batch, ref_hash_seed: hs.next_u64(), nocache_hash_seed: hs.next_u64(), variants }
+    let prelude = if r.chance(1, 4) && !big_model() { Some(sibling_prelude(&mut r, world)) } else { None };
+    C04 { batch, ref_hash_seed: hs.next_u64(), nocache_hash_seed: hs.next_u64(), variants, prelude }
 }
 
 /// Library-computed duplicate table of a list of formulae: used only to *measure* which
@@ -343,6 +399,9 @@ pub fn check(world: &World, sc: &C04) -> Report {
             }
         }
     }
+    // from here on every evaluating thread first analyses the sibling network (if any)
+    evalx::set_prelude(sc.prelude.clone());
+    rep.probe("runs_with_prior_history_in_thread", sc.prelude.is_some() as u64);
     // alone (single-formula entry point; duplicates inside the formula are shared)
     for (i, f) in sc.batch.iter().enumerate() {
         let r = isolated(sc.ref_hash_seed.wrapping_add(i as u64), || evalx::alone(&env, f));
@@ -375,6 +434,7 @@ pub fn check(world: &World, sc: &C04) -> Report {
     rep.probe("duplicates_wild_card", dup.iter().filter(|(s, _)| s.starts_with('%')).count() as u64);
     rep.probe("batches_with_restricted_scope", sc.batch.iter().any(|f| !{ let mut p = Default::default(); let mut d = std::collections::BTreeSet::new(); f.wild_labels(&mut p, &mut d); d.is_empty() }) as u64);
     run_variants(&env, &sc.batch, &refs, &sc.variants, &mut rep, ["batch_vs_alone", "permuted_batch_vs_alone", "repeated_batch_vs_alone"], "alone");
+    evalx::set_prelude(None);
     if !dup.is_empty() {
         let mut sig = fnv1a(format!("{dup:?}").as_bytes());
         for v in &sc.variants {
@@ -388,6 +448,11 @@ pub fn check(world: &World, sc: &C04) -> Report {
 /// One-step simplifications of a scenario (for the minimiser).
 pub fn shrinks(sc: &C04) -> Vec<C04> {
     let mut out = Vec::new();
+    if sc.prelude.is_some() {
+        let mut s = sc.clone();
+        s.prelude = None;
+        out.push(s);
+    }
     // keep a single variant
     if sc.variants.len() > 1 {
         for i in 0..sc.variants.len() {
